@@ -83,7 +83,19 @@ def cases(draw, tier='quick'):
     newdims = None
     if zipped and draw(st.booleans()):
         newdims = ['PTS']
-    return dict(file=fs, sel=[list(s) for s in sel], newdims=newdims)
+    route = draw(st.sampled_from(['memory', 'memory', 'memory', 'disk']))
+    if route == 'disk':
+        # "a reader": saved as NETCDF4 and re-opened as class netcdf, whose
+        # variables are netCDF4 variables (own indexing rules).  Keep what a
+        # netCDF file can represent: data never equals the declared fill
+        # (|data| <= 1000), no unlimited dimension without data.
+        for d in fs['dims']:
+            d[2] = False
+        for v in fs['vars']:
+            if v.get('fill') is not None:
+                v['fill'] = -9999
+    return dict(file=fs, sel=[list(s) for s in sel], newdims=newdims,
+                route=route)
 
 
 def strategy(tier):
@@ -200,7 +212,32 @@ def check_case(case):
     kw = S.OD((d, to_selector(k, v)) for d, (k, v) in sel.items())
     if case.get('newdims'):
         kw['newdims'] = tuple(case['newdims'])
-    ok, out = guard(r, 'slice-raises', lambda: f.sliceDimensions(**kw))
+    route = case.get('route', 'memory')
+    r.label('route:' + route)
+    disk = None
+    if route == 'disk':
+        import gc
+        from .. import libstate
+        from PseudoNetCDF.core._files import netcdf
+        path = libstate.scratch_path('.nc')
+        o = f.save(path, format='NETCDF4', verbose=0)
+        libstate.release(o)
+        del o
+        gc.collect()
+        f = disk = netcdf(path)
+    try:
+        ok, out = guard(r, 'slice-raises', lambda: f.sliceDimensions(**kw))
+        if ok:
+            # realise lazily read data before the source is closed
+            for k in out.variables.keys():
+                out.variables[k][...]
+    finally:
+        if disk is not None:
+            libstate.release(disk)
+            del disk, f
+            gc.collect()
+            import os
+            os.remove(path)
     # ---- labels / non-triviality
     kinds = set(k for k, v in sel.values())
     r.label(*['sel:' + k for k in sorted(kinds)])
@@ -283,7 +320,8 @@ def check_case(case):
         if msg:
             r.fail('var-data-' + tag, msg, klass=klass)
         msg = S.cmp_attrs(ov, mv.attrs, 'variable %s' % name,
-                          skip=('fill_value',))
+                          skip=('fill_value', '_FillValue',
+                                'missing_value'))
         if msg:
             r.fail('var-attrs', msg)
     msg = S.cmp_attrs(out, m.gattrs, 'file')
